@@ -202,6 +202,30 @@ def _resolve_table_lookup(ctx, g, call, a):
             and isinstance(call.func.value, ast.Name)):
         return None
     enc = _enclosing_enumerate(call)
+    if enc is None and all(n in g.params for n in (a.value.id, a.slice.id, call.func.value.id)):
+        # the step was moved into a helper `step(position, state, memo)` that the sweep calls for every (position, state) of the
+        # list: the loop is one level up, the memo is filled on first use in the helper
+        sites = [(G2, c2) for G2, c2 in ctx.cg.callers_of(g) if not getattr(c2, "synthetic", False)]
+        if len(sites) != 1:
+            return None
+        G2, c2 = sites[0]
+        ps = [p for p in g.params if p != "self"]
+        amap = dict(zip(ps, c2.args))
+        amap.update({k_.arg: k_.value for k_ in c2.keywords if k_.arg})
+        names = {p: (v.id if isinstance(v, ast.Name) else None) for p, v in amap.items()}
+        k2, s2, T2 = names.get(a.slice.id), names.get(call.func.value.id), names.get(a.value.id)
+        enc2 = _enclosing_enumerate(c2)
+        if None in (k2, s2, T2) or enc2 is None or enc2[0] != k2 or enc2[1] != s2:
+            return None
+        defs2 = [d for d in ctx.cfg(G2).defs_reaching(c2, T2) if isinstance(d, ast.Assign)]
+        if len(defs2) != 1 or not (isinstance(defs2[0].value, ast.Dict) and not defs2[0].value.keys):
+            return None
+        if any(isinstance(x, ast.Subscript) and isinstance(x.ctx, (ast.Store, ast.Del)) and isinstance(x.value, ast.Name) and x.value.id == T2 for x in walk_no_nested_defs(G2.node)):
+            return None
+        e = _lazy_memo(g, a.value.id, a.slice.id, call.func.value.id, call)
+        if e is None:
+            return None
+        return copy.deepcopy(e), call.func.value.id
     if enc is None or enc[0] is None or enc[0] != a.slice.id or enc[1] != call.func.value.id:
         return None
     k, sv, X, loop = enc
@@ -394,3 +418,36 @@ def specialise(ctx, f, keep=1):
     v.specialised_view = True
     cache[f.qual] = v
     return v
+
+
+def with_defaults(ctx, f, keep=1, accept=None):
+    """View of f in which the optional parameters after the first `keep` whose default is a compile-time constant accepted by
+    `accept(value)` start out as that constant (a prologue assignment): the function as it behaves when the option is not
+    used.  Returns (view, {param: value}); (f, {}) when there is nothing to bind."""
+    ps = [p for p in f.params if p != "self"]
+    bind = {}
+    for p in ps[keep:]:
+        if p not in f.defaults:
+            continue
+        ok, val = ctx.prog.try_const(f.defaults[p], f.mod)
+        if ok and (accept is None or accept(val)) and not any(isinstance(x, ast.Name) and x.id == p and isinstance(x.ctx, ast.Store) for x in walk_no_nested_defs(f.node)):
+            bind[p] = val
+    if not bind:
+        return f, {}
+    node = copy.deepcopy(f.node)
+    doc = [st for st in node.body[:1] if isinstance(st, ast.Expr) and isinstance(st.value, ast.Constant)]
+    pro = []
+    for p, val in bind.items():
+        try:
+            lit = ast.parse(repr(val), mode="eval").body
+        except SyntaxError:
+            return f, {}
+        pro.append(ast.Assign(targets=[ast.Name(id=p, ctx=ast.Store())], value=lit, lineno=f.node.lineno, col_offset=0))
+    node.body = doc + pro + node.body[len(doc):]
+    ast.fix_missing_locations(node)
+    add_parents(node)
+    node.parent = getattr(f.node, "parent", None)
+    v = Func(f.mod, f.cls, node)
+    v.bound_params = {p: repr(val) for p, val in bind.items()}
+    v.specialised_view = True
+    return v, bind
